@@ -109,6 +109,8 @@ class AccessMixin:
                 if attr == 'args' and tag is None:
                     tag = 'seq'
                 val = st.attr_arr(attr)[v.v]
+                # the initial heap only references objects that existed before this execution started
+                st.add(Z.birth(z3.Const('at0_' + attr, Z.ArrRR)[v.v]) < z3.Int('clock0'))
                 return [('ok', st, self.unbox(st, val, tag))]
             if v.t == 'chainmap' and attr == 'maps':
                 return [('ok', st, sv_ref(v.v, 'cmmaps'))]
@@ -143,6 +145,9 @@ class AccessMixin:
         if o is not None:
             return o.vals, o.has
         return st.arr['dv'][d.v], st.arr['dh'][d.v]
+
+    def old_value(self, st, d, kb):
+        st.add(Z.birth(z3.Const('dv0', Z.ArrDV)[d.v][kb]) < z3.Int('clock0'))
 
     def cm_lookup_terms(self, st, cm, kb, fuel=6):
         """(has, val) z3 terms for ChainMap lookup, unfolding through frames that are known (fresh ChainMaps and up to
@@ -369,9 +374,12 @@ class AccessMixin:
             cs = Z.concrete_int(step.v) if step.k == 'int' else None
             if cs == 1:
                 step = NONE_SV
-            elif cs is not None and cs > 1 and o.k in ('seq', 'tuple') and hi.k == 'none':
-                # s[a::k] : strided view, defined element-wise by the stride axioms (instantiated on read)
-                return [('ok', st, SV('seq', self.stride(st, self.as_seq(st, o), self.opt_int(st, lo), cs)))]
+            elif cs is not None and cs > 1 and o.k in ('seq', 'tuple'):
+                # s[a:b:k] : strided view of s[:b], defined element-wise by the stride axioms (instantiated on read)
+                base = self.as_seq(st, o)
+                if hi.k != 'none':
+                    base = Z.seq_slice(base, None, self.opt_int(st, hi))
+                return [('ok', st, SV('seq', self.stride(st, base, self.opt_int(st, lo), cs)))]
             else:
                 raise Unsupported('extended slice with step %r' % (step,))
         if o.k == 'tuple' and lo.k in ('none', 'int') and hi.k in ('none', 'int'):
